@@ -31,23 +31,31 @@ VANISH = [r'\label{KEY}', r'\index{KEY}', r'\vphantom{KEY}', r'\pagestyle{KEY}',
           r'\LTskip{KEY}', r'\zzunk', r'\zzother{}', r'\thispagestyle{KEY}',
           r'\definecolor{KEY}{rgb}{KEY}', r'\usetikzlibrary{KEY}', r'\qedhere',
           r'\notag', r'\include{KEY}', r'\pagenumbering{KEY}', r'\addbibresource{KEY}',
-          r'\geometry{KEY=KEY}', r'\lstset{KEY=KEY}', r'\hspace{0pt}', r'\footnotemark[KEY]']
+          r'\geometry{KEY=KEY}', r'\lstset{KEY=KEY}', r'\hspace{0pt}', r'\footnotemark[KEY]',
+          r'\DeclareMathOperator{\KEY}{KEY}', r'\crefname{KEY}{KEY}{KEY}', r'\Crefname{KEY}{KEY}{KEY}', r'\ctikzset{KEY}', r'\tikzset{KEY}',
+          r'\pgfplotsset{KEY}', r'\mathtoolsset{KEY}', r'\unimathsetup{KEY}', r'\inputencoding{KEY}', r'\theoremstyle{KEY}',
+          r'\numberwithin{KEY}{KEY}', r'\setmathfont{KEY}[KEY]', r'\printbibliography[KEY]', r'\negthinspace', r'\negmedspace',
+          r'\negthickspace', r'\phantom{}', r'\hphantom{}', r'\selectlanguage{german}', r'\newtheoremstyle{KEY}{KEY}{KEY}{KEY}{KEY}{KEY}{KEY}{KEY}{KEY}']
+BLANKGEN = [r'\hfill', r'\newline', r'\qquad', r'\quad', r'\medspace', r'\thickspace', r'\thinspace', r'\vspace{KEY}', r'\phantom{KEY}',
+            r'\hphantom{KEY}', r'\hspace{1cm}', r'\hspace*{KEY}', r'\vspace*{KEY}']
 GEN = [(r'\ref{KEY}', '0'), (r'\pageref{KEY}', '0'), (r'\eqref{KEY}', '(0)'),
        (r'\cite{KEY}', '[0]'), (r'\LaTeX', 'LaTeX'), (r'\TeX', 'TeX'),
        (r'\ss', 'ß'), (r'\S', '§'), (r'\o', 'ø'), (r'\AE', 'Æ'), (r'\L', 'Ł'), (r'\aa', 'å'),
        (r'\textbackslash', '\\'), (r'\textasciitilde', '~'), (r'\textasciicircum', '^'),
-       (r'\parencite{KEY}', '[0]'), (r'\Cite[KEY][]{KEY}', '[KEY 0]'), (r'\LaTeX{}', 'LaTeX'),
+       (r'\parencite{KEY}', '[0]'), (r'\Parencite{KEY}', '[0]'), (r'\AA', 'Å'), (r'\O', 'Ø'), (r'\OE', 'Œ'), (r'\ae', 'æ'), (r'\l', 'ł'), (r'\oe', 'œ'),
+       (r'\Glspl{zzgl}', 'Glsplurals'), (r'\GLSpl{zzgl}', 'GLSPLURALS'), (r'\Glsdesc{zzgl}', 'Descr words'), (r'\GLSdesc{zzgl}', 'DESCR WORDS'),
+       (r'\glstext{zzgm}', 'secondtext'), (r'\Glstext{zzgl}', 'Glstext one'), (r'\GLStext{zzgm}', 'SECONDTEXT'), (r'\Cite[KEY][]{KEY}', '[KEY 0]'), (r'\LaTeX{}', 'LaTeX'),
        (r'\zzbody', 'Bodyone Bodytwo'), (r'\zzopt{KEY}', 'Defword'),
        (r'\gls{zzgl}', 'glstext one'), (r'\Gls{zzgl}', 'Glstext one'), (r'\GLS{zzgl}', 'GLSTEXT ONE'),
        (r'\cref{zzeq}', 'eq. (0)'), (r'\Cref{zzeq}', 'Equation (0)'), (r'\cref{zzsec}', 'section 0'),
-       (r'\crefrange{zzeq}{zzer}', 'eqs. (0) to (0)'), (r'\cref{zzeq}', 'eq. (0)'),
+       (r'\crefrange{zzeq}{zzer}', 'eqs. (0) to (0)'), (r'\cref{zzeq}', 'eq. (0)'), (r'\cref{zzlong}', 'see eq'),
        (r'\glspl{zzgl}', 'glsplurals'), (r'\glsdesc{zzgl}', 'descr words'), (r'\gls{zzgm}', 'secondtext')]
 PASS = [(r'\textcolor{KEY}{', '}'), (r'\colorbox{KEY}{', '}'), (r'\href{KEY}{', '}'),
         (r'\LTadd{', '}'), (r'\LTalter{KEY}{', '}'), (r'\texorpdfstring{', '}{KEY}'),
         (r'\framebox[KEY]{', '}'), (r'\zzbf{', '}'), (r'\zzemph{', '}'), ('{', '}'),
         (r'\fcolorbox{KEY}{KEY}{', '}'), (r'\textcolor[rgb]{KEY}{', '}'),
         (r'\glsdisp{zzgl}{', '}'), (r'\glslink[KEY]{zzgl}{', '}'), (r'\zzone{', '}'), (r'\zztwo{KEY}{', '}'),
-        (r'\zzunkb{', '}{}'), (r'\url{', '}')]
+        (r'\zzunkb{', '}{}'), (r'\url{', '}'), (r'\foreignlanguage{german}{', '}'), (r'\foreignlanguage[KEY]{french}{', '}')]
 SPECIAL = [('--', '–'), ('---', '—'), ('``', '“'), ("''", '”'),
            ('~', '\xa0'), ('\\,', '\u202f'), ('\\%', '%'), ('\\&', '&'), ('\\$', '$'),
            ('\\#', '#'), ('\\_', '_'), ('\\{', '{'), ('\\}', '}')]
@@ -81,6 +89,7 @@ SED = (r's/\\cref{zzeq}/\\cref@equation@name \\nobreakspace \\textup {(\\ref {zz
        r's/\\Cref{zzeq}/\\Cref@equation@name \\nobreakspace \\textup {(\\ref {zzeq})}/g' '\n'
        r's/\\cref{zzsec}/\\cref@section@name \\nobreakspace \\ref {zzsec}/g' '\n'
        r's/\\crefrange{zzeq}{zzer}/eqs\.\\nobreakspace \\textup {(\\ref {zzeq})} to\\nobreakspace \\textup {(\\ref {zzer})}/g' '\n'
+       r's/\\cref{zzlong}/see                              eq/g' '\n'
        r's/\\cref@equation@name /eq\./g' '\n'
        r's/\\Cref@equation@name /Equation/g' '\n'
        r's/\\cref@section@name /section/g' '\n')
@@ -97,6 +106,9 @@ def item(flow):
         st.tuples(st.just('vanish'), st.sampled_from(VANISH)),
         st.tuples(st.just('vanish'), st.sampled_from(VANISH)),
         st.tuples(st.just('gen'), st.sampled_from(GEN)),
+        st.tuples(st.just('blankgen'), st.sampled_from(BLANKGEN)),
+        st.just(('footcite',)),
+        st.just(('lstinput',)),
         st.tuples(st.just('pass'), st.sampled_from(PASS), flow, inner, inner),
         st.tuples(st.just('pass'), st.sampled_from(PASS), flow, inner, inner),
         st.tuples(st.just('special'), st.sampled_from(SPECIAL)),
@@ -258,6 +270,24 @@ def render_item(m, it):
         fill(m, it[1])
         m.cur().append(('v', it[1][-1].isalpha()))
         m.features.add('vanish')
+    elif k == 'blankgen':
+        # macros that leave one generated blank (documented as such in list-of-macros / parameters)
+        fill(m, it[1])
+        m.cur().append(('sep', 'S', True))
+        m.cur().append(('v', it[1][-1].isalpha() or it[1].startswith('\\bibitem')))
+        m.features.add('blank-generating-macro')
+    elif k == 'footcite' and (m.no_detach or m.in_head):
+        render_item(m, ('word',))
+    elif k == 'footcite':
+        lo = m.n
+        fill(m, '\\footcite{KEY}')
+        m.done.append(([('g', '[0].', lo, m.n, False)], lo, m.n))
+        m.cur().append(('v', False))
+        m.features.add('detached')
+    elif k == 'lstinput':
+        fill(m, '\\lstinputlisting[KEY]{KEY}')
+        m.cur().append(('sep', 'P', True))
+        m.cur().append(('v', False))
     elif k == 'gen':
         lo = m.n
         src, txt = it[1]
